@@ -255,6 +255,10 @@ class Translator:
             d = dotted(e.func) or ""
             if d in ("np.dot", "numpy.dot") and len(e.args) == 2:
                 return self._matmul(self.tr(e.args[0]), self.tr(e.args[1]))
+            if d in ("norm_sq", "util.norm_sq", "pygradflow.util.norm_sq") and len(e.args) == 1:
+                # the repository's own helper: norm_sq(x) is np.dot(x, x)
+                v_ = self.tr(e.args[0])
+                return self._matmul(v_, v_)
             if isinstance(e.func, ast.Attribute) and e.func.attr == "dot" and len(e.args) == 1 and d not in ("np.dot", "numpy.dot"):
                 return self._matmul(self.tr(e.func.value), self.tr(e.args[0]))
             if d in ("float", "np.float64", "bool", "np.asarray", "np.array", "np.copy", "copy.copy", "_read_only", "np.atleast_1d") and len(e.args) >= 1:
